@@ -152,6 +152,9 @@ class TRS:
 
     @trs.setter
     def trs(self, new_trs):
+        if isinstance(new_trs, TRS):
+            # Look up (and cache) by the string, not by a mutable object.
+            new_trs = new_trs.trs
         # If we've already broken down this trs into a dict, just
         # reuse it.
         self.__trs_dict = TRS.__CACHE.get(new_trs, None)
